@@ -8,6 +8,7 @@ package memberlist
 
 import (
 	"bytes"
+	"time"
 
 	"github.com/google/btree"
 )
@@ -54,3 +55,215 @@ func VerifQueueSnapshot(q *TransmitLimitedQueue) (items []VerifQItem, idGen int6
 
 // VerifRetransmitLimit wraps retransmitLimit.
 func VerifRetransmitLimit(mult, n int) int { return retransmitLimit(mult, n) }
+
+// ---- membership state hooks ----
+
+// VerifNodeState is a copy of one nodeState.
+type VerifNodeState struct {
+	Name        string
+	Addr        []byte
+	Port        uint16
+	Meta        []byte
+	Incarnation uint32
+	State       NodeStateType
+	Vsn         [6]uint8
+	StateChange time.Time
+}
+
+// VerifTimer describes a live suspicion timer.
+type VerifTimer struct {
+	K          int32
+	N          int32
+	Min, Max   time.Duration
+	Start      time.Time
+	Confirmers []string
+	Handle     *VerifSuspicion
+}
+
+// VerifSuspicion is an opaque handle to a suspicion timer (live or stale).
+type VerifSuspicion struct{ s *suspicion }
+
+// Fire runs the timer's timeout function synchronously, as the runtime timer would.
+func (h *VerifSuspicion) Fire() { h.s.timeoutFn() }
+
+// N returns the number of confirmations counted so far.
+func (h *VerifSuspicion) N() int32 { return h.s.n.Load() }
+
+// VerifSnapshot is a consistent copy of the membership state.
+type VerifSnapshot struct {
+	Nodes       []VerifNodeState
+	Timers      map[string]VerifTimer
+	Incarnation uint32
+	Score       int
+	NumNodes    int
+	HasLeft     bool
+	ProbeIndex  int
+	AckHandlers []uint32
+}
+
+// VerifSnapshotState copies nodes (in list order), timers, counters.
+func VerifSnapshotState(m *Memberlist) VerifSnapshot {
+	m.nodeLock.RLock()
+	defer m.nodeLock.RUnlock()
+	var s VerifSnapshot
+	for _, n := range m.nodes {
+		s.Nodes = append(s.Nodes, VerifNodeState{
+			Name: n.Name, Addr: append([]byte(nil), n.Addr...), Port: n.Port, Meta: append([]byte(nil), n.Meta...),
+			Incarnation: n.Incarnation, State: n.State,
+			Vsn:         [6]uint8{n.PMin, n.PMax, n.PCur, n.DMin, n.DMax, n.DCur},
+			StateChange: n.StateChange,
+		})
+	}
+	s.Timers = make(map[string]VerifTimer)
+	for name, t := range m.nodeTimers {
+		var conf []string
+		for c := range t.confirmations {
+			conf = append(conf, c)
+		}
+		s.Timers[name] = VerifTimer{K: t.k, N: t.n.Load(), Min: t.min, Max: t.max, Start: t.start, Confirmers: conf, Handle: &VerifSuspicion{t}}
+	}
+	s.Incarnation = m.incarnation.Load()
+	s.Score = m.awareness.GetHealthScore()
+	s.NumNodes = m.estNumNodes()
+	s.HasLeft = m.hasLeft()
+	s.ProbeIndex = m.probeIndex
+	m.ackLock.Lock()
+	for k := range m.ackHandlers {
+		s.AckHandlers = append(s.AckHandlers, k)
+	}
+	m.ackLock.Unlock()
+	return s
+}
+
+// VerifAliveNode wraps aliveNode.
+func VerifAliveNode(m *Memberlist, inc uint32, node string, addr []byte, port uint16, meta []byte, vsn []uint8, notify chan struct{}, bootstrap bool) {
+	a := alive{Incarnation: inc, Node: node, Addr: addr, Port: port, Meta: meta, Vsn: vsn}
+	m.aliveNode(&a, notify, bootstrap)
+}
+
+// VerifSuspectNode wraps suspectNode.
+func VerifSuspectNode(m *Memberlist, inc uint32, node, from string) {
+	m.suspectNode(&suspect{Incarnation: inc, Node: node, From: from})
+}
+
+// VerifDeadNode wraps deadNode.
+func VerifDeadNode(m *Memberlist, inc uint32, node, from string) {
+	m.deadNode(&dead{Incarnation: inc, Node: node, From: from})
+}
+
+// VerifPushNodeState mirrors pushNodeState.
+type VerifPushNodeState struct {
+	Name        string
+	Addr        []byte
+	Port        uint16
+	Meta        []byte
+	Incarnation uint32
+	State       NodeStateType
+	Vsn         []uint8
+}
+
+func verifToPush(remote []VerifPushNodeState) []pushNodeState {
+	rs := make([]pushNodeState, len(remote))
+	for i, r := range remote {
+		rs[i] = pushNodeState{Name: r.Name, Addr: r.Addr, Port: r.Port, Meta: r.Meta, Incarnation: r.Incarnation, State: r.State, Vsn: r.Vsn}
+	}
+	return rs
+}
+
+// VerifMergeState wraps mergeState.
+func VerifMergeState(m *Memberlist, remote []VerifPushNodeState) { m.mergeState(verifToPush(remote)) }
+
+// VerifMergeRemoteState wraps mergeRemoteState (verifyProtocol, merge delegate, mergeState, user state).
+func VerifMergeRemoteState(m *Memberlist, join bool, remote []VerifPushNodeState, userBuf []byte) error {
+	return m.mergeRemoteState(join, verifToPush(remote), userBuf)
+}
+
+// VerifVerifyProtocol wraps verifyProtocol.
+func VerifVerifyProtocol(m *Memberlist, remote []VerifPushNodeState) error {
+	return m.verifyProtocol(verifToPush(remote))
+}
+
+// VerifSetStateChange rewrites a record's StateChange time (ageing a record).
+func VerifSetStateChange(m *Memberlist, name string, t time.Time) {
+	m.nodeLock.Lock()
+	defer m.nodeLock.Unlock()
+	if n, ok := m.nodeMap[name]; ok {
+		n.StateChange = t
+	}
+}
+
+// VerifResetNodes wraps resetNodes.
+func VerifResetNodes(m *Memberlist) { m.resetNodes() }
+
+// VerifProbe wraps probe (one tick of the failure detector).
+func VerifProbe(m *Memberlist) { m.probe() }
+
+// VerifGossip wraps gossip (one gossip tick).
+func VerifGossip(m *Memberlist) { m.gossip() }
+
+// VerifPushPull wraps pushPull (one anti-entropy tick).
+func VerifPushPull(m *Memberlist) { m.pushPull() }
+
+// VerifBcast is a decoded entry of the membership broadcast queue.
+type VerifBcast struct {
+	QName       string
+	Type        uint8
+	Incarnation uint32
+	Node        string
+	From        string
+	Addr        []byte
+	Port        uint16
+	Meta        []byte
+	Vsn         []uint8
+	Notify      bool
+	Transmits   int
+	Raw         []byte
+}
+
+// VerifBroadcasts decodes the queued membership broadcasts (ascending queue order).
+func VerifBroadcasts(m *Memberlist) []VerifBcast {
+	items, _, _ := VerifQueueSnapshot(m.broadcasts)
+	var out []VerifBcast
+	for _, it := range items {
+		mb, ok := it.B.(*memberlistBroadcast)
+		if !ok || len(mb.msg) == 0 {
+			continue
+		}
+		b := VerifBcast{QName: mb.node, Type: mb.msg[0], Notify: mb.notify != nil, Transmits: it.Transmits, Raw: mb.msg}
+		switch messageType(mb.msg[0]) {
+		case aliveMsg:
+			var a alive
+			if decode(mb.msg[1:], &a) == nil {
+				b.Incarnation, b.Node, b.Addr, b.Port, b.Meta, b.Vsn = a.Incarnation, a.Node, a.Addr, a.Port, a.Meta, a.Vsn
+			}
+		case suspectMsg:
+			var s suspect
+			if decode(mb.msg[1:], &s) == nil {
+				b.Incarnation, b.Node, b.From = s.Incarnation, s.Node, s.From
+			}
+		case deadMsg:
+			var d dead
+			if decode(mb.msg[1:], &d) == nil {
+				b.Incarnation, b.Node, b.From = d.Incarnation, d.Node, d.From
+			}
+		}
+		out = append(out, b)
+	}
+	return out
+}
+
+// VerifResetBroadcasts empties the membership broadcast queue.
+func VerifResetBroadcasts(m *Memberlist) { m.broadcasts.Reset() }
+
+// VerifSetIncarnation sets the local incarnation counter (boundary cases).
+func VerifSetIncarnation(m *Memberlist, v uint32) { m.incarnation.Store(v) }
+
+// VerifSetRecord rewrites incarnation and state of an existing record.
+func VerifSetRecord(m *Memberlist, name string, inc uint32, st NodeStateType) {
+	m.nodeLock.Lock()
+	defer m.nodeLock.Unlock()
+	if n, ok := m.nodeMap[name]; ok {
+		n.Incarnation = inc
+		n.State = st
+	}
+}
